@@ -82,7 +82,11 @@ impl Root {
         let _ = self.node_update_queue.take();
         let _ = self.current_node.take();
         let _ = self.root_node.take();
-        let _ = self.nodes.take();
+        // Everything has been disposed. The arena itself is kept, so that its slot versions go on:
+        // otherwise the keys of the nodes created from now on would collide with the keys of
+        // destroyed nodes, and stale handles would report those as alive.
+        let leftover: Vec<_> = self.nodes.borrow_mut().drain().collect();
+        drop(leftover);
         self.batching.set(false);
 
         // Create a new root node.
